@@ -144,6 +144,30 @@ def str_method(P, s, name, args, kwargs):
     if name in ("split", "rsplit"):
         sep = args[0] if args else kwargs.get("sep")
         maxsplit = args[1] if len(args) > 1 else kwargs.get("maxsplit", -1)
+        if sep is None and isinstance(maxsplit, int) and name == "split":
+            # whitespace split: leading / trailing whitespace is dropped, runs of whitespace separate.  Modelled through str.strip():
+            #   no piece      <=> the stripped string is empty
+            #   a single piece  when the stripped string holds no blank (a lone trailing or leading blank does NOT make a second piece)
+            #   pieces are functions of the string, none is empty, none holds a blank (space / tab / newline)
+            stripped = ufn("str_strip", StrS, StrS)(z)
+            P.assume(z3.And(z3.Length(stripped) <= z3.Length(z), z3.Contains(z, stripped)))
+            n = SInt(ufn("wsplit_n", StrS, IntS)(z))
+            f0 = ufn("wsplit_at", StrS, IntS, StrS)
+            blanks = [z3.StringVal(c) for c in (" ", "\t", "\n")]
+            has_blank = z3.Or(*[z3.Contains(stripped, b) for b in blanks])
+            P.assume(z3.And(n.z >= 0, (n.z == 0) == (z3.Length(stripped) == 0), z3.Implies(z3.And(z3.Length(stripped) > 0, z3.Not(has_blank)), z3.And(n.z == 1, f0(z, 0) == stripped)),
+                            z3.Implies(has_blank, n.z >= 2)))
+            if maxsplit >= 0:
+                P.assume(n.z <= maxsplit + 1)
+
+            def piece(i, f0=f0, z=z):
+                t = f0(z, zint(i))
+                # every piece but a last one cut short by maxsplit is blank-free and non-empty
+                P.assume(z3.And(z3.Length(t) > 0, z3.Contains(z, t)))
+                if maxsplit < 0 or not (isinstance(i, int) and i == maxsplit):
+                    P.assume(z3.Implies(zint(i) < (maxsplit if maxsplit >= 0 else n.z), z3.And(*[z3.Not(z3.Contains(t, b)) for b in blanks])))
+                return SStr(t)
+            return SSeq(n, piece, tag="wsplit")
         if sep is None or not isinstance(sep, str) or not isinstance(maxsplit, int):
             raise _unsup("split with symbolic/whitespace separator")
         zsep = z3.StringVal(sep)
